@@ -368,8 +368,11 @@ func mutate(rnd *hx.Rand, f *fox.Router, pool []string, methods []string, steps 
 		case r < 93:
 			if txn == nil {
 				txn = f.Txn(true)
-			} else {
+			} else if rnd.Bool() {
 				txn.Commit()
+				txn = nil
+			} else {
+				txn.Abort()
 				txn = nil
 			}
 		default:
@@ -404,81 +407,126 @@ func runC07(out, tier string, shards int, rnd *hx.Rand) {
 	nontrivial := 0
 	opts := []fox.GlobalOption{fox.WithNoMethod(true), fox.WithAutoOptions(true), fox.WithRedirectTrailingSlash(true)}
 	for ci := 0; ci < n; ci++ {
-		a, err := fox.New(opts...)
-		hx.Fatal(err)
-		pool := make([]string, rnd.Range(4, 10))
-		hostPct := hx.Pick(rnd, []int{0, 0, 30, 70})
-		for i := range pool {
-			pool[i] = rt.Pattern(rnd, hostPct)
-			if i > 0 && rnd.Pct(30) {
-				pool[i] = pool[rnd.Intn(i)] + hx.Pick(rnd, []string{"/a", "/{x}", "b", "/"})
-			}
-		}
-		methods := []string{"GET", "POST", "FOO", "BAR"}[:rnd.Range(1, 4)]
-		before := a.Len()
-		mutate(rnd, a, pool, methods, rnd.Range(10, 60))
-		_ = before
-		var set []entry
-		for m, r := range a.Iter().All() {
-			set = append(set, entry{m, r.Pattern()})
-		}
-		// random permutation
-		for i := len(set) - 1; i > 0; i-- {
-			j := rnd.Intn(i + 1)
-			set[i], set[j] = set[j], set[i]
-		}
-		b, err := fox.New(opts...)
-		hx.Fatal(err)
-		var items []string
-		for _, e := range set {
-			if _, err := b.Handle(e.method, e.pat, rt.Noop); err != nil {
-				hx.Fatal(fmt.Errorf("fresh fill rejected %s %s: %v", e.method, e.pat, err))
-			}
-			ps, hs, _ := b.VerifParseRoute(e.pat)
-			if hs < 0 {
-				hs = 0
-			}
-			items = append(items, fmt.Sprintf("(%s, %s, %d, %d)", hx.Bytes(e.method), hx.Bytes(e.pat), ps, hs))
-		}
-		equal := true
-		var diff string
-		probes := 0
-		for _, e := range set {
-			for k := 0; k < 4; k++ {
-				h, p := rt.SplitPattern(rt.Instantiate(rnd, e.pat, false))
-				if k > 0 {
-					p = rt.PerturbPath(rnd, p)
+		func() {
+			var trace []string
+			defer func() {
+				if r := recover(); r != nil {
+					// the implementation panicked (or corrupted itself so badly that the harness could not
+					// continue): that is a failing history by itself
+					cs.Add("{| c7_set := []; c7_treeA := []; c7_treeB := [Node (S2B \"panic\") None []]; c7_depthB := 0; c7_maxpB := 0; c7_probes_equal := false |}",
+						fmt.Sprintf("IMPLEMENTATION PANIC %v after: %s", r, strings.Join(trace, " ; ")))
+					st.Count("case:panic")
 				}
-				if k == 3 {
-					h = rt.PerturbHost(rnd, h)
+			}()
+			a, err := fox.New(opts...)
+			hx.Fatal(err)
+			pool := make([]string, rnd.Range(4, 10))
+			hostPct := hx.Pick(rnd, []int{0, 0, 30, 70})
+			for i := range pool {
+				pool[i] = rt.Pattern(rnd, hostPct)
+				if i > 0 && rnd.Pct(30) {
+					pool[i] = pool[rnd.Intn(i)] + hx.Pick(rnd, []string{"/a", "/{x}", "b", "/"})
 				}
-				if p == "" {
-					p = "/"
+			}
+			methods := []string{"GET", "POST", "FOO", "BAR"}[:rnd.Range(1, 4)]
+			if ci%3 == 1 {
+				// sibling pool: many children under one node, inserted a few at a time, so that children
+				// arrays with spare capacity exist when a later (possibly aborted) transaction inserts a
+				// sibling that sorts before the existing ones
+				pre := hx.Pick(rnd, []string{"/", "/p/", "/{x}/", "a.b/"})
+				letters := "mtwabzkq0c"
+				pool = pool[:0]
+				for _, c := range letters[:rnd.Range(4, len(letters))] {
+					pool = append(pool, pre+string(c))
 				}
-				for _, m := range append(methods, "OPTIONS") {
-					probes++
-					la, lb := rt.Lookup(a, m, h, p), rt.Lookup(b, m, h, p)
-					sa, aa := rt.Serve(a, m, h, p)
-					sb, ab := rt.Serve(b, m, h, p)
-					if fmt.Sprint(la) != fmt.Sprint(lb) || sa != sb || aa != ab {
-						equal = false
-						diff = fmt.Sprintf("%s host=%q path=%q: A=%v %d %q B=%v %d %q", m, h, p, la, sa, aa, lb, sb, ab)
+				st.Count("pool:siblings")
+			}
+			before := a.Len()
+			if ci%3 == 1 {
+				// scripted prelude: k siblings committed one by one, then an ABORTED transaction inserting
+				// siblings that sort before them (a copy-on-write slip corrupts the live tree here)
+				k := rnd.Range(3, 7)
+				trace = append(trace, fmt.Sprintf("Handle %v one by one; then a transaction inserting %v and %q, aborted with probability 3/4", pool[:min(k, len(pool))], pool[min(k, len(pool)):], pool[0][:len(pool[0])-1]+"A"))
+				for i := 0; i < k && i < len(pool); i++ {
+					a.Handle(methods[0], pool[i], rt.Noop)
+				}
+				txn := a.Txn(true)
+				for i := k; i < len(pool); i++ {
+					txn.Handle(methods[0], pool[i], rt.Noop)
+				}
+				txn.Handle(methods[0], pool[0][:len(pool[0])-1]+"A", rt.Noop)
+				if rnd.Pct(75) {
+					txn.Abort()
+				} else {
+					txn.Commit()
+				}
+				mutate(rnd, a, pool, methods, rnd.Range(0, 6))
+			} else {
+				mutate(rnd, a, pool, methods, rnd.Range(10, 60))
+			}
+			_ = before
+			var set []entry
+			for m, r := range a.Iter().All() {
+				set = append(set, entry{m, r.Pattern()})
+			}
+			// random permutation
+			for i := len(set) - 1; i > 0; i-- {
+				j := rnd.Intn(i + 1)
+				set[i], set[j] = set[j], set[i]
+			}
+			b, err := fox.New(opts...)
+			hx.Fatal(err)
+			var items []string
+			for _, e := range set {
+				if _, err := b.Handle(e.method, e.pat, rt.Noop); err != nil {
+					panic(fmt.Sprintf("router A lists %s %s (All) but a fresh router rejects it: %v", e.method, e.pat, err))
+				}
+				ps, hs, _ := b.VerifParseRoute(e.pat)
+				if hs < 0 {
+					hs = 0
+				}
+				items = append(items, fmt.Sprintf("(%s, %s, %d, %d)", hx.Bytes(e.method), hx.Bytes(e.pat), ps, hs))
+			}
+			equal := true
+			var diff string
+			probes := 0
+			for _, e := range set {
+				for k := 0; k < 4; k++ {
+					h, p := rt.SplitPattern(rt.Instantiate(rnd, e.pat, false))
+					if k > 0 {
+						p = rt.PerturbPath(rnd, p)
+					}
+					if k == 3 {
+						h = rt.PerturbHost(rnd, h)
+					}
+					if p == "" {
+						p = "/"
+					}
+					for _, m := range append(methods, "OPTIONS") {
+						probes++
+						la, lb := rt.Lookup(a, m, h, p), rt.Lookup(b, m, h, p)
+						sa, aa := rt.Serve(a, m, h, p)
+						sb, ab := rt.Serve(b, m, h, p)
+						if fmt.Sprint(la) != fmt.Sprint(lb) || sa != sb || aa != ab {
+							equal = false
+							diff = fmt.Sprintf("%s host=%q path=%q: A=%v %d %q B=%v %d %q", m, h, p, la, sa, aa, lb, sb, ab)
+						}
 					}
 				}
 			}
-		}
-		da, db := a.VerifDump(), b.VerifDump()
-		term := fmt.Sprintf("{| c7_set := %s; c7_treeA := %s; c7_treeB := %s; c7_depthB := %d; c7_maxpB := %d; c7_probes_equal := %s |}",
-			hx.List(items), rt.RootsTerm(da, nil), rt.RootsTerm(db, nil), db.Depth, db.MaxParams, hx.Bool(equal))
-		human := fmt.Sprintf("final set (fill order) %v; probes=%d equal=%v %s", set, probes, equal, diff)
-		cs.Add(term, human)
-		st.Count(fmt.Sprintf("setsize:%02d", min(len(set), 12)))
-		if len(set) >= 3 {
-			nontrivial++
-		}
-		if len(st.Samples) < 3 && len(set) >= 3 {
-			st.Samples = append(st.Samples, human)
-		}
+			da, db := a.VerifDump(), b.VerifDump()
+			term := fmt.Sprintf("{| c7_set := %s; c7_treeA := %s; c7_treeB := %s; c7_depthB := %d; c7_maxpB := %d; c7_probes_equal := %s |}",
+				hx.List(items), rt.RootsTerm(da, nil), rt.RootsTerm(db, nil), db.Depth, db.MaxParams, hx.Bool(equal))
+			human := fmt.Sprintf("final set (fill order) %v; probes=%d equal=%v %s", set, probes, equal, diff)
+			cs.Add(term, human)
+			st.Count(fmt.Sprintf("setsize:%02d", min(len(set), 12)))
+			if len(set) >= 3 {
+				nontrivial++
+			}
+			if len(st.Samples) < 3 && len(set) >= 3 {
+				st.Samples = append(st.Samples, human)
+			}
+		}()
 	}
 	st.Evaluations = cs.Len()
 	st.DistinctNontrivial = nontrivial
